@@ -74,7 +74,9 @@ Lemma consume_spec : forall st,
   Inv (consume st) /\
   drop_ws (pending (consume st)) = drop_ws (skipn (scanp st) (buf st) ++ rd_bytes (rd st)) /\
   rd (consume st) = rd st /\ pcap (consume st) = pcap st /\
-  scanned st + scanp st <= scanned (consume st) + scanp (consume st).
+  scanned st + scanp st <= scanned (consume st) + scanp (consume st) /\
+  length (pending (consume st)) <= length (skipn (scanp st) (buf st) ++ rd_bytes (rd st)) /\
+  scanp (consume st) = 0.
 Proof.
   intros st [Ie Iw Ip Ic] Hs. unfold consume.
   destruct (scan st) as [[c|] st1] eqn:S.
@@ -82,11 +84,13 @@ Proof.
     split. { constructor; simpl; auto. rewrite skipn_length. lia. }
     split. { unfold pending. simpl. rewrite E4, E. rewrite <- app_assoc. symmetry.
              rewrite drop_ws_app_space by exact Hsp. reflexivity. }
-    split; auto. split; auto. lia.
+    split; auto. split; auto. split; [lia|]. split; [|reflexivity].
+    unfold pending. simpl. rewrite E4, E. repeat (rewrite app_length; simpl). lia.
   - apply scan_none in S. destruct S as [-> Hsp]. simpl.
     split. { constructor; simpl; auto. }
     split. { unfold pending. simpl. rewrite drop_ws_app_space by exact Hsp. reflexivity. }
-    split; [reflexivity|]. split; [reflexivity|]. lia.
+    split; [reflexivity|]. split; [reflexivity|]. split; [lia|]. split; [|reflexivity].
+    unfold pending. simpl. rewrite app_length. lia.
 Qed.
 
 Section WithSkip.
@@ -102,7 +106,8 @@ Lemma try_skip_spec : forall fuel s st R n v,
   exists st', try_skip skip inner fuel s st = (RVal v, st') /\ Inv st' /\
               drop_ws (pending st') = drop_ws (skipn n R) /\
               rfin (rd st') = rfin (rd st) /\ pcap st' = pcap st /\
-              scanned st + s + n <= scanned st' + scanp st'.
+              scanned st + s + n <= scanned st' + scanp st' /\
+              length (pending st') <= length (skipn n R).
 Proof.
   induction fuel as [|f IH]; intros s st R n v I F Hs HR HF Hn Hns Hv; [lia|].
   simpl. rewrite sub_to_end.
@@ -120,10 +125,10 @@ Proof.
     assert (E3 : skipn n R = skipn (n + s) (buf st) ++ rd_bytes (rd st)).
     { rewrite <- HR. rewrite skipn_app_le by lia. unfold W. rewrite Nat.add_comm, skipn_add. reflexivity. }
     assert (I0 : Inv (set_scanp st (n + s))) by (destruct I; constructor; auto).
-    destruct (consume_spec (set_scanp st (n + s)) I0 ltac:(simpl; lia)) as (I' & P' & R' & PC' & O').
-    simpl in P', R', PC', O'.
+    destruct (consume_spec (set_scanp st (n + s)) I0 ltac:(simpl; lia)) as (I' & P' & R' & PC' & O' & PL' & _).
+    simpl in P', R', PC', O', PL'.
     eexists. split; [reflexivity|]. split; [exact I'|]. split; [rewrite P', E3; reflexivity|].
-    split; [rewrite R'; reflexivity|]. split; [exact PC'|]. lia.
+    split; [rewrite R'; reflexivity|]. split; [exact PC'|]. split; [lia|]. rewrite E3. exact PL'.
   - (* not yet: read more *)
     specialize (F1 L).
     assert (NS : drop_ws (rd_bytes (rd st)) <> []).
@@ -146,9 +151,9 @@ Proof.
     assert (Hs1 : s <= length (buf st1)) by (rewrite B1, app_length; lia).
     assert (HR1 : skipn s (buf st1) ++ rd_bytes (rd st1) = R).
     { rewrite B1. rewrite skipn_app_le by lia. rewrite <- app_assoc, <- B2. exact HR. }
-    destruct (IH s st1 R n v I1 ltac:(lia) Hs1 HR1 HF Hn Hns Hv) as (st' & T & I' & P' & RF' & PC' & O').
+    destruct (IH s st1 R n v I1 ltac:(lia) Hs1 HR1 HF Hn Hns Hv) as (st' & T & I' & P' & RF' & PC' & O' & PL').
     exists st'. split; [exact T|]. split; [exact I'|]. split; [exact P'|].
-    split; [congruence|]. split; [congruence|]. lia.
+    split; [congruence|]. split; [congruence|]. split; [lia|exact PL'].
 Qed.
 
 (* ---- numbers: decodeNumber *)
@@ -309,16 +314,17 @@ Lemma Decode_val : forall st c rest n v,
   inner (firstn n (c :: rest)) = Some v ->
   exists st', Decode skip inner st = (RVal v, st') /\ Inv st' /\
               drop_ws (pending st') = drop_ws (skipn n (c :: rest)) /\
-              rfin (rd st') = rfin (rd st) /\ pcap st' = pcap st.
+              rfin (rd st') = rfin (rd st) /\ pcap st' = pcap st /\
+              length (pending st') <= length (skipn n (c :: rest)).
 Proof.
   intros st c rest n v I HP Hc HF Hn Hns Hv.
   unfold Decode. rewrite (inv_err _ I).
   destruct (peek_first st c rest I HP) as (st1 & PK & I1 & P1 & RF1 & PC1 & (tl & T1) & Hs & O1).
   rewrite PK. unfold is_num_start in Hc. rewrite Hc.
   destruct (try_skip_spec (S (rd_fuel (rd st1))) (scanp st1) st1 (c :: rest) n v I1
-              (Nat.lt_succ_diag_r _) ltac:(lia) P1 HF Hn Hns Hv) as (st' & T & I' & P' & RF' & PC' & O').
+              (Nat.lt_succ_diag_r _) ltac:(lia) P1 HF Hn Hns Hv) as (st' & T & I' & P' & RF' & PC' & O' & PL').
   exists st'. split; [exact T|]. split; [exact I'|]. split; [exact P'|].
-  split; congruence.
+  split; [congruence|]. split; [congruence|exact PL'].
 Qed.
 
 Lemma Decode_end : forall st,
@@ -339,7 +345,8 @@ Lemma Decode_num : forall st c rest v,
   inner (firstn m (c :: rest)) = Some v -> length v <= m ->
   exists st', Decode skip inner st = (RVal v, st') /\ Inv st' /\
               drop_ws (pending st') = drop_ws (skipn (length v) (c :: rest)) /\
-              rfin (rd st') = rfin (rd st) /\ pcap st' = pcap st.
+              rfin (rd st') = rfin (rd st) /\ pcap st' = pcap st /\
+              length (pending st') <= length (skipn (length v) (c :: rest)).
 Proof.
   intros st c rest v I HP Hc m Hm Hv Hl. subst m. set (m := S (num_run rest)) in *.
   unfold Decode. rewrite (inv_err _ I).
@@ -357,12 +364,13 @@ Proof.
     simpl. rewrite app_nil_r. reflexivity. }
   rewrite E2, Hv.
   assert (I0 : Inv (set_scanp st2 (scanp st1 + length v))) by (destruct I2; constructor; auto).
-  destruct (consume_spec _ I0 ltac:(simpl; lia)) as (I' & P' & R' & PC' & O').
-  simpl in P', R', PC', O'.
+  destruct (consume_spec _ I0 ltac:(simpl; lia)) as (I' & P' & R' & PC' & O' & PL' & _).
+  simpl in P', R', PC', O', PL'.
+  assert (EQ : skipn (scanp st1 + length v) (buf st2) ++ rd_bytes (rd st2) = skipn (length v) (c :: rest)).
+  { rewrite <- R2. rewrite skipn_app_le by (rewrite skipn_length; lia). rewrite skipn_add. reflexivity. }
   eexists. split; [reflexivity|]. split; [exact I'|].
-  split. { rewrite P'. rewrite <- R2. rewrite skipn_app_le by (rewrite skipn_length; lia).
-           rewrite skipn_add. reflexivity. }
-  split; [rewrite R'; congruence|congruence].
+  split. { rewrite P', EQ. reflexivity. }
+  split; [rewrite R'; congruence|]. split; [congruence|]. rewrite <- EQ. exact PL'.
 Qed.
 
 (* a number that runs up to the end of the stream *)
@@ -373,7 +381,8 @@ Lemma Decode_num_end : forall st c rest,
   | EOF => forall v, inner (c :: rest) = Some v -> length v <= length (c :: rest) ->
            exists st', Decode skip inner st = (RVal v, st') /\ Inv st' /\
                        drop_ws (pending st') = drop_ws (skipn (length v) (c :: rest)) /\
-                       rfin (rd st') = rfin (rd st) /\ pcap st' = pcap st
+                       rfin (rd st') = rfin (rd st) /\ pcap st' = pcap st /\
+                       length (pending st') <= length (skipn (length v) (c :: rest))
   | ErrR k => exists st', Decode skip inner st = (RErr (DIo (ErrR k)), st')
   end.
 Proof.
@@ -399,11 +408,13 @@ Proof.
       rewrite R2, Hm. apply firstn_all. }
     rewrite E2, Hv.
     assert (I0 : Inv (set_scanp st2 (scanp st1 + length v))) by (destruct I2; constructor; auto).
-    destruct (consume_spec _ I0 ltac:(simpl; lia)) as (I' & P' & R' & PC' & O').
-    simpl in P', R', PC', O'.
+    destruct (consume_spec _ I0 ltac:(simpl; lia)) as (I' & P' & R' & PC' & O' & PL' & _).
+    simpl in P', R', PC', O', PL'.
+    assert (EQ : skipn (scanp st1 + length v) (buf st2) ++ rd_bytes (rd st2) = skipn (length v) (c :: rest)).
+    { rewrite D2, app_nil_r. rewrite skipn_add, R2. reflexivity. }
     eexists. split; [reflexivity|]. split; [exact I'|].
-    split. { rewrite P', D2, app_nil_r. rewrite skipn_add, R2. reflexivity. }
-    split; [rewrite R'; congruence|congruence].
+    split. { rewrite P', EQ. reflexivity. }
+    split; [rewrite R'; congruence|]. split; [congruence|]. rewrite <- EQ. exact PL'.
   - destruct CASE as (-> & E).
     unfold Decode. rewrite (inv_err _ I), PK. unfold is_num_start in Hc. rewrite Hc. unfold decodeNumber. rewrite DL, E.
     eauto.
@@ -570,14 +581,14 @@ Proof.
                  |s c rest E Hc HT]; intros st fuel I HFin HP L;
     (destruct fuel; [simpl in L; lia|]); simpl; rewrite E in HP.
   - destruct (Decode_end st I HP) as (st' & D). rewrite D, HFin. simpl. eauto.
-  - destruct (Decode_val st c rest n v I HP Hc HF Hn Hns Hv) as (st1 & D & I1 & P1 & RF1 & PC1).
+  - destruct (Decode_val st c rest n v I HP Hc HF Hn Hns Hv) as (st1 & D & I1 & P1 & RF1 & PC1 & _).
     rewrite D.
     destruct (IH st1 fuel I1 ltac:(congruence) P1 ltac:(simpl in L; lia)) as (st' & DA). rewrite DA. eauto.
-  - destruct (Decode_num st c rest v I HP Hc Hm Hv Hl) as (st1 & D & I1 & P1 & RF1 & PC1).
+  - destruct (Decode_num st c rest v I HP Hc Hm Hv Hl) as (st1 & D & I1 & P1 & RF1 & PC1 & _).
     rewrite D.
     destruct (IH st1 fuel I1 ltac:(congruence) P1 ltac:(simpl in L; lia)) as (st' & DA). rewrite DA. eauto.
   - pose proof (Decode_num_end st c rest I HP Hc Hm) as DN. rewrite HFin, FE in DN.
-    destruct (DN v Hv Hl) as (st1 & D & I1 & P1 & RF1 & PC1).
+    destruct (DN v Hv Hl) as (st1 & D & I1 & P1 & RF1 & PC1 & _).
     rewrite D.
     destruct (IH st1 fuel I1 ltac:(congruence) P1 ltac:(simpl in L; lia)) as (st' & DA). rewrite DA. eauto.
   - pose proof (Decode_num_end st c rest I HP Hc Hm) as DN. rewrite HFin, FE in DN.
@@ -591,7 +602,7 @@ Qed.
 Hypothesis skip_pos : forall w y x, skip w = SkOk y x -> y < x.
 
 Lemma scan_offset : forall st c st1, scan st = (c, st1) ->
-  scanned st1 = scanned st /\ scanp st <= scanp st1 /\ buf st1 = buf st.
+  scanned st1 = scanned st /\ scanp st <= scanp st1 /\ buf st1 = buf st /\ rd st1 = rd st.
 Proof.
   intros st c st1 H. unfold scan in H.
   destruct (first_ns (skipn (scanp st) (buf st)) 0) as [[[i c'] tl]|]; inversion H; subst; simpl; repeat split; lia.
@@ -613,88 +624,6 @@ Lemma readMore_scanned : forall st st1, readMore st = (Some true, st1) -> scanne
 Proof.
   intros st st1 RM. unfold readMore in RM. destruct (err st); [discriminate|].
   eapply readMore_loop_scanned; eauto.
-Qed.
-
-Lemma consume_offset : forall st, scanned st + scanp st <= scanned (consume st) + scanp (consume st).
-Proof.
-  intros st. unfold consume. destruct (scan st) as [c st1] eqn:S.
-  apply scan_offset in S. destruct S as (S1 & S2 & S3). destruct c; simpl; lia.
-Qed.
-
-Lemma try_skip_progress : forall fuel s st v st',
-  try_skip skip inner fuel s st = (RVal v, st') -> scanned st + s < scanned st' + scanp st'.
-Proof.
-  induction fuel as [|f IH]; intros s st v st' H; simpl in H; [discriminate|].
-  destruct (skip (sub (buf st) s (length (buf st)))) as [y x| |] eqn:SK.
-  - apply skip_pos in SK.
-    destruct (length (buf st) <? x + (y + s)); [discriminate|].
-    destruct (inner (sub (buf st) (y + s) (x + (y + s)))); [|discriminate].
-    inversion H; subst.
-    pose proof (consume_offset (set_scanp st (x + (y + s)))) as C. simpl in C. lia.
-  - destruct (readMore st) as [[[|]|] st1] eqn:RM.
-    + apply IH in H. rewrite (readMore_scanned _ _ RM) in H. exact H.
-    + destruct (err st1) as [[[|]| |]|]; discriminate.
-    + discriminate.
-  - discriminate.
-Qed.
-
-Hypothesis inner_pos : forall w v, inner w = Some v -> 1 <= length v.
-
-Lemma decodeNumber_loop_scanned : forall fuel i st j st',
-  decodeNumber_loop fuel i st = (NBreak j, st') -> scanned st' = scanned st.
-Proof.
-  induction fuel as [|f IH]; intros i st j st' H; simpl in H; [discriminate|].
-  destruct (_ <? _) in H; [inversion H; reflexivity|].
-  destruct (rd_read _ _) as [[data e] r'] in H.
-  destruct e as [[|k]|]; destruct data; try (apply IH in H; simpl in H; exact H); try discriminate; inversion H; reflexivity.
-Qed.
-
-Lemma decodeNumber_progress : forall s st v st',
-  decodeNumber inner s st = (RVal v, st') -> scanned st + s < scanned st' + scanp st'.
-Proof.
-  intros s st v st' H. unfold decodeNumber in H.
-  destruct (decodeNumber_loop (S (rd_fuel (rd st))) (S s) st) as [[i| |] st1] eqn:DL.
-  - apply decodeNumber_loop_scanned in DL.
-    destruct (inner (sub (buf st1) s i)) as [v'|] eqn:IV; [|discriminate].
-    inversion H; subst. apply inner_pos in IV.
-    pose proof (consume_offset (set_scanp st1 (s + length v))) as C. simpl in C. lia.
-  - destruct (err st1); discriminate.
-  - discriminate.
-Qed.
-
-Lemma refill_offset : forall st e st', refill st = (e, st') -> scanned st' + scanp st' = scanned st + scanp st.
-Proof.
-  intros st e st' H. unfold refill in H.
-  destruct (rd_read _ _) as [[data e2] r'] in H.
-  inversion H; subst. simpl. destruct (0 <? scanp st) eqn:E; simpl; [lia|].
-  reflexivity.
-Qed.
-
-Lemma peek_offset : forall fuel e0 st c st', peek fuel e0 st = (PChar c, st') ->
-  scanned st + scanp st <= scanned st' + scanp st'.
-Proof.
-  induction fuel; intros e0 st c st' H; simpl in H; [discriminate|].
-  destruct (scan st) as [[c1|] st1] eqn:S.
-  - inversion H; subst. apply scan_offset in S. lia.
-  - apply scan_offset in S. destruct S as (S1 & S2 & S3).
-    destruct e0; [discriminate|].
-    destruct (refill st1) as [e st2] eqn:R. apply refill_offset in R.
-    apply IHfuel in H.
-    unfold scan in *. (* st1 = st when scan finds nothing *)
-    lia.
-Qed.
-
-Theorem decode_progress : forall st v st',
-  Decode skip inner st = (RVal v, st') -> InputOffset st < InputOffset st'.
-Proof.
-  intros st v st' H. unfold Decode in H. unfold InputOffset.
-  destruct (err st); [discriminate|].
-  destruct (peek (S (rd_fuel (rd st))) None st) as [[c|e|] st2] eqn:P.
-  - apply peek_offset in P. destruct (N.eqb c 45 || is_digit c)%bool.
-    + apply decodeNumber_progress in H. lia.
-    + apply try_skip_progress in H. lia.
-  - destruct (err st2); discriminate.
-  - discriminate.
 Qed.
 
 (* errors are sticky: whatever error Decode returns is recorded, and every later Decode returns it again without
@@ -846,5 +775,169 @@ Proof.
     simpl; try exact B1.
   all: try (destruct (_ || _)%bool; exact B1).
 Qed.
+
+(* ---- progress and exact accounting of consumed bytes, in every state reached from a fresh decoder (BInv) *)
+Lemma refill_offset : forall st e st', refill st = (e, st') -> scanned st' + scanp st' = scanned st + scanp st.
+Proof.
+  intros st e st' H. unfold refill in H.
+  destruct (rd_read _ _) as [[data e2] r'] in H.
+  inversion H; subst. simpl. destruct (0 <? scanp st) eqn:E; simpl; [lia|].
+  reflexivity.
+Qed.
+
+Lemma peek_offset : forall fuel e0 st c st', peek fuel e0 st = (PChar c, st') ->
+  scanned st + scanp st <= scanned st' + scanp st'.
+Proof.
+  induction fuel; intros e0 st c st' H; simpl in H; [discriminate|].
+  destruct (scan st) as [[c1|] st1] eqn:S.
+  - inversion H; subst. apply scan_offset in S. lia.
+  - apply scan_offset in S. destruct S as (S1 & S2 & S3 & S4).
+    destruct e0; [discriminate|].
+    destruct (refill st1) as [e st2] eqn:R. apply refill_offset in R.
+    apply IHfuel in H. lia.
+Qed.
+
+Hypothesis inner_pos : forall w v, inner w = Some v -> 1 <= length v.
+Hypothesis inner_len : forall w v, inner w = Some v -> length v <= length w.
+
+(* bytes dropped from the front of the buffer + bytes buffered + bytes the reader has not delivered yet *)
+Definition acct (st : sd) : nat := scanned st + length (buf st) + length (rd_bytes (rd st)).
+
+Lemma rd_read_bytes : forall r sp data e r', rd_read r sp = (data, e, r') -> rd_bytes r = data ++ rd_bytes r'.
+Proof.
+  intros [ch fin lg] sp data e r' H. unfold rd_read in H. simpl in H. unfold rd_bytes. simpl.
+  destruct ch as [|[c ce] tl].
+  - inversion H; subst. reflexivity.
+  - destruct (length c <=? sp); inversion H; subst; simpl; [reflexivity|].
+    rewrite app_assoc, firstn_skipn. reflexivity.
+Qed.
+
+Lemma consume_acct : forall st, BInv st ->
+  acct (consume st) = acct st /\ scanned st + scanp st <= scanned (consume st) + scanp (consume st) /\
+  scanp (consume st) = 0.
+Proof.
+  intros st B. unfold consume. destruct (scan st) as [c st1] eqn:S.
+  pose proof (scan_binv _ _ _ B S) as B1. apply scan_offset in S. destruct S as (S1 & S2 & S3 & S4).
+  unfold BInv, acct in *. rewrite S3 in B1. destruct c; simpl; rewrite ?skipn_length, ?S4, ?S3, ?S1; repeat split; lia.
+Qed.
+
+Lemma refill_acct : forall st e st', BInv st -> refill st = (e, st') -> acct st' = acct st.
+Proof.
+  intros st e st' B H. unfold refill in H.
+  destruct (rd_read _ _) as [[data e2] r'] eqn:RR in H. inversion H; subst. clear H.
+  unfold BInv, acct in *. simpl.
+  destruct (0 <? scanp st) eqn:E; simpl in *; apply rd_read_bytes in RR; simpl in RR; rewrite RR, !app_length;
+    rewrite ?skipn_length; lia.
+Qed.
+
+Lemma peek_acct : forall fuel e0 st c st', BInv st -> peek fuel e0 st = (PChar c, st') -> acct st' = acct st.
+Proof.
+  induction fuel; intros e0 st c st' B H; simpl in H; [discriminate|].
+  destruct (scan st) as [[c1|] st1] eqn:S.
+  - inversion H; subst. apply scan_offset in S. destruct S as (S1 & S2 & S3 & S4). unfold acct. rewrite S1, S3, S4. reflexivity.
+  - pose proof (scan_binv _ _ _ B S) as B1. apply scan_offset in S. destruct S as (S1 & S2 & S3 & S4).
+    destruct e0; [discriminate|].
+    destruct (refill st1) as [e st2] eqn:R.
+    pose proof (refill_binv _ _ _ B1 R) as B2. pose proof (refill_acct _ _ _ B1 R) as A2.
+    apply IHfuel in H; auto. rewrite H, A2. unfold acct. rewrite S1, S3, S4. reflexivity.
+Qed.
+
+Lemma readMore_loop_acct : forall n st st1, readMore_loop n st = (Some true, st1) -> acct st1 = acct st.
+Proof.
+  induction n; intros st st1 RM; simpl in RM; [discriminate|].
+  destruct (rd_read _ _) as [[data e] r'] eqn:RR in RM.
+  destruct (scan _) as [c st3] eqn:S in RM.
+  apply scan_offset in S. simpl in S. destruct S as (S1 & _ & S3 & S4).
+  apply rd_read_bytes in RR. simpl in RR.
+  assert (A3 : acct st3 = acct st).
+  { unfold acct. rewrite S1, S3, S4, RR, !app_length. lia. }
+  destruct c.
+  - inversion RM; subst. exact A3.
+  - destruct e; [discriminate|]. apply IHn in RM. rewrite RM. exact A3.
+Qed.
+
+Lemma decodeNumber_loop_acct : forall fuel i st j st',
+  decodeNumber_loop fuel i st = (NBreak j, st') ->
+  acct st' = acct st /\ scanp st' = scanp st /\ scanned st' = scanned st /\ length (buf st) <= length (buf st').
+Proof.
+  induction fuel as [|f IH]; intros i st j st' H; simpl in H; [discriminate|].
+  destruct (_ <? _) in H; [inversion H; subst; repeat split; lia|].
+  destruct (rd_read _ _) as [[data e] r'] eqn:RR in H.
+  apply rd_read_bytes in RR. simpl in RR.
+  assert (STEP : forall st2, st2 = set_rd (set_buf (realloc st) (buf (realloc st) ++ data) (cap (realloc st))) r' ->
+            acct st2 = acct st /\ scanp st2 = scanp st /\ scanned st2 = scanned st /\ length (buf st) <= length (buf st2)).
+  { intros st2 ->. unfold acct. simpl. rewrite RR, !app_length. repeat split; lia. }
+  assert (REC : forall i1, decodeNumber_loop f i1 (set_rd (set_buf (realloc st) (buf (realloc st) ++ data) (cap (realloc st))) r') = (NBreak j, st') ->
+            acct st' = acct st /\ scanp st' = scanp st /\ scanned st' = scanned st /\ length (buf st) <= length (buf st')).
+  { intros i1 R. apply IH in R. destruct (STEP _ eq_refl) as (A1 & A2 & A3 & A4). destruct R as (H1 & H2 & H3 & H4).
+    split; [congruence|]. split; [congruence|]. split; [congruence|lia]. }
+  destruct e as [[|k]|]; destruct data as [|d0 data'].
+  - inversion H; subst. apply STEP. reflexivity.
+  - eapply REC; exact H.
+  - discriminate.
+  - eapply REC; exact H.
+  - eapply REC; exact H.
+  - eapply REC; exact H.
+Qed.
+
+Lemma try_skip_acct : forall fuel s st v st',
+  try_skip skip inner fuel s st = (RVal v, st') ->
+  acct st' = acct st /\ scanned st + s < scanned st' + scanp st' /\ scanp st' = 0.
+Proof.
+  induction fuel as [|f IH]; intros s st v st' H; simpl in H; [discriminate|].
+  destruct (skip (sub (buf st) s (length (buf st)))) as [y x| |] eqn:SK.
+  - apply skip_pos in SK.
+    destruct (length (buf st) <? x + (y + s)) eqn:L; [discriminate|]. apply Nat.ltb_ge in L.
+    destruct (inner (sub (buf st) (y + s) (x + (y + s)))); [|discriminate].
+    inversion H; subst.
+    destruct (consume_acct (set_scanp st (x + (y + s))) ltac:(unfold BInv; simpl; lia)) as (A & O & Z).
+    unfold acct in *. simpl in *. repeat split; lia.
+  - destruct (readMore st) as [[[|]|] st1] eqn:RM.
+    + apply IH in H. destruct H as (A & O & Z).
+      unfold readMore in RM. destruct (err st); [discriminate|].
+      pose proof (readMore_loop_acct _ _ _ RM) as A1. pose proof (readMore_loop_scanned _ _ _ RM) as S1.
+      repeat split; [congruence|lia|exact Z].
+    + destruct (err st1) as [[[|]| |]|]; discriminate.
+    + discriminate.
+  - discriminate.
+Qed.
+
+Lemma decodeNumber_acct : forall s st v st',
+  s <= length (buf st) -> decodeNumber inner s st = (RVal v, st') ->
+  acct st' = acct st /\ scanned st + s < scanned st' + scanp st' /\ scanp st' = 0.
+Proof.
+  intros s st v st' Hs H. unfold decodeNumber in H.
+  destruct (decodeNumber_loop (S (rd_fuel (rd st))) (S s) st) as [[i| |] st1] eqn:DL.
+  - apply decodeNumber_loop_acct in DL. destruct DL as (A1 & P1 & S1 & L1).
+    destruct (inner (sub (buf st1) s i)) as [v'|] eqn:IV; [|discriminate].
+    inversion H; subst. pose proof (inner_pos _ _ IV) as IP. apply inner_len in IV.
+    assert (LS : length (sub (buf st1) s i) <= length (buf st1) - s).
+    { unfold sub. rewrite firstn_length, skipn_length. lia. }
+    destruct (consume_acct (set_scanp st1 (s + length v)) ltac:(unfold BInv; simpl; lia)) as (A & O & Z).
+    unfold acct in *. simpl in *. repeat split; lia.
+  - destruct (err st1); discriminate.
+  - discriminate.
+Qed.
+
+(* Every successful Decode leaves `scanned + len(buf) + undelivered bytes` unchanged, advances InputOffset by at least
+   one byte and ends with scanp = 0: InputOffset() is exactly the number of bytes that are no longer pending *)
+Theorem decode_acct : forall st v st',
+  BInv st -> Decode skip inner st = (RVal v, st') ->
+  acct st' = acct st /\ InputOffset st < InputOffset st' /\ scanp st' = 0.
+Proof.
+  intros st v st' B H. unfold Decode in H. unfold InputOffset.
+  destruct (err st); [discriminate|].
+  destruct (peek (S (rd_fuel (rd st))) None st) as [[c|e|] st2] eqn:P.
+  - pose proof (peek_binv _ _ _ _ _ B P) as B2. pose proof (peek_acct _ _ _ _ _ B P) as A2. apply peek_offset in P.
+    destruct (N.eqb c 45 || is_digit c)%bool.
+    + apply decodeNumber_acct in H; [|exact B2]. destruct H as (A & O & Z). repeat split; [congruence|lia|exact Z].
+    + apply try_skip_acct in H. destruct H as (A & O & Z). repeat split; [congruence|lia|exact Z].
+  - destruct (err st2); discriminate.
+  - discriminate.
+Qed.
+
+Theorem decode_progress : forall st v st',
+  BInv st -> Decode skip inner st = (RVal v, st') -> InputOffset st < InputOffset st'.
+Proof. intros st v st' B H. exact (proj1 (proj2 (decode_acct st v st' B H))). Qed.
 
 End WithSkip.
